@@ -213,4 +213,27 @@ theorem quiet_skew0 : Quiet 2 skew0 := fun i hi => by
 example : (perms (run skew0 serialSched).hist).any (explains skew0 (run skew0 serialSched)) = true :=
   C02_partial_checked 2 skew0 serialSched skew0_init quiet_skew0 good_serial.1
 
+/-! ## legacy witness: the inner-node removal defect (finding C02-F2, repaired by repo commit a8e6b837)
+
+Before the repair `RemoveCurrentItem` on an item of an inner node registered the in-order SUCCESSOR in the tracker
+(`Op.rm k alias`, `Tr.phys`). Items: 4 (key 40, inner node = page 1), 5 (key 50) and 6 (key 60) in the leaf = page 2.
+T0 removes key 40 — tracked as "remove item 5"; T1 updates key 60 and commits first, so T0's validation of page 2
+fails and its merge replays the tracker: item 5 (key 50) is removed, key 40 stays, Commit returns nil. -/
+def legacy0 : G :=
+  { ids := [4, 5, 6], pageOf := fun i => if i = 4 then 1 else 2,
+    db := fun i => if i = 4 then some ⟨40, 100, 0⟩ else if i = 5 then some ⟨50, 100, 0⟩ else if i = 6 then some ⟨60, 100, 0⟩ else none,
+    txns := fun i => if i = 0 then { prog := [.rm 40 5] } else if i = 1 then { prog := [.upd 60 7] } else absent }
+
+def legacySched : List (Nat × List Nat) :=
+  [(0, [1])] ++ ([1, 1, 1, 1, 1, 1, 1, 1, 1, 0, 0, 0, 0, 0, 0, 0, 0, 0, 0, 0, 0, 0, 0, 0, 0].map fun i => (i, []))
+
+theorem legacy_successor_alias :
+    ((run legacy0 legacySched).txns 0).res = .ok ∧ ((run legacy0 legacySched).txns 1).res = .ok ∧
+    (run legacy0 legacySched).db 4 = some ⟨40, 100, 0⟩ ∧ (run legacy0 legacySched).db 5 = none := by decide
+
+/-- the repaired tracker (no alias): the same schedule removes key 40 and keeps key 50 -/
+theorem repaired_inner_remove :
+    let g := { legacy0 with txns := fun i => if i = 0 then { prog := [.rm 40] } else legacy0.txns i }
+    ((run g legacySched).txns 0).res = .ok ∧ (run g legacySched).db 4 = none ∧ (run g legacySched).db 5 = some ⟨50, 100, 0⟩ := by decide
+
 end Sop.C02
